@@ -42,9 +42,12 @@ func messageValueChecker(f ValueChecker) MessageChecker {
 		return nil
 	}
 	return func(msg *sarama.ProducerMessage) error {
-		val, err := msg.Value.Encode()
-		if err != nil {
-			return fmt.Errorf("Input message encoding failed: %s", err.Error())
+		var val []byte
+		if msg.Value != nil {
+			var err error
+			if val, err = msg.Value.Encode(); err != nil {
+				return fmt.Errorf("Input message encoding failed: %s", err.Error())
+			}
 		}
 		return f(val)
 	}
